@@ -1,3 +1,4 @@
+import PEval.Gen.CallSites
 import PEval.Lemmas.FilterMono
 /-!
 # C10 — object filtering keeps exactly the objects satisfying the configured criteria
@@ -259,5 +260,29 @@ example : isTarget { exP with maxX := some [10] } (exObj 8 "AutowareLabel.BICYCL
   decide +kernel
 /-- a unit rational yaw for `frame_invariant` -/
 example : (3/5 : Rat) * (3/5) + (4/5) * (4/5) = 1 := by decide +kernel
+
+/-! ## tie to the source: call sites inside the package (regenerated from the AST on every run)
+
+`filter_objects` / `filter_object_results` accept `*args, **kwargs`, so a misspelt keyword at a call
+site is swallowed silently and the corresponding criterion is simply not applied (defect F2:
+`transform=` for `transforms=` in `evaluate_frame`). The translator lists every keyword used at the
+package's own call sites of the filter / matcher / divide functions and the functions' declared
+parameters; the statements below are re-decided against the current source on every run. -/
+
+/-- every keyword written at a call site of these functions is a declared parameter of the callee -/
+theorem call_site_keywords_declared :
+    ∀ kw ∈ Gen.callSiteKeywords, ∃ ps ∈ Gen.calleeParams, ps.1 = kw.1 ∧ kw.2 ∈ ps.2 := by decide +kernel
+
+/-- every key of the critical filter's `filtering_params` (splatted with `**` into both filter functions)
+is a declared parameter of both -/
+theorem critical_params_declared :
+    ∀ k ∈ Gen.criticalFilteringParamKeys, ∀ f ∈ ["filter_objects", "filter_object_results"],
+      ∃ ps ∈ Gen.calleeParams, ps.1 = f ∧ k ∈ ps.2 := by decide +kernel
+
+/-- the frame transforms reach both filter functions wherever the frame's evaluation calls them -/
+theorem transforms_passed_to_filters :
+    ("filter_objects", "transforms") ∈ Gen.callSiteKeywords ∧
+    ("filter_object_results", "transforms") ∈ Gen.callSiteKeywords ∧
+    ("get_object_results", "transforms") ∈ Gen.callSiteKeywords := by decide +kernel
 
 end PEval.C10
